@@ -936,6 +936,31 @@ def rule_randint(ctx):
                             'never returned' % (f.qualname, norm_src(n)),
                             file=f.module.rel, function=f.qualname,
                             line=n.lineno)
+    # int() truncates toward zero: it may be applied to the non-negative
+    # offset, not to a sum that contains the (possibly negative) lower bound
+    lo = f.params[0] if f.params else None
+    for n in own_nodes(f):
+        if isinstance(n, ast.Call) and isinstance(n.func, ast.Name) and \
+                n.func.id == 'int' and len(n.args) == 1 and isinstance(
+                n.args[0], ast.BinOp) and isinstance(
+                n.args[0].op, (ast.Add, ast.Sub)) and any(
+                isinstance(c, ast.Call) and call_name(c) in (
+                    'rand', 'random', 'random_sample', 'uniform')
+                for c in ast.walk(n.args[0])):
+            rr.instances += 1
+            top_level = [n.args[0].left, n.args[0].right]
+            if lo and any(isinstance(x, ast.Name) and x.id == lo
+                          for x in top_level):
+                rr.fail(key_of(f, 'truncation of a sum with the lower bound'),
+                        '%s converts `%s` with int(), which truncates toward '
+                        'zero: for a negative lower bound the draw is rounded '
+                        '*up* and can exceed the upper bound' % (
+                            f.qualname, norm_src(n.args[0])),
+                        file=f.module.rel, function=f.qualname, line=n.lineno)
+            else:
+                rr.ok('int() is applied to the non-negative offset `%s`'
+                      % norm_src(n.args[0]), '%s:%d' % (
+                          f.module.rel, n.lineno))
     return rr
 
 
@@ -1009,7 +1034,11 @@ def rule_direct(ctx):
 
 def run(ctx):
     S = ctx.soft
+    from .modelstate import rule_history
     r1, reaching, reach = rule_impure(ctx)
     return [r1, S(rule_mask, ctx), S(rule_nomemo, ctx, reaching, reach),
             S(rule_sites, ctx), S(rule_refs, ctx), S(rule_direct, ctx),
-            S(rule_randint, ctx)]
+            S(rule_randint, ctx),
+            # a calculation that takes values from the solution of an earlier
+            # one freezes every volatile cell among them (shared with C07/C08)
+            S(rule_history, ctx, 'C13', 'C13.history')]
